@@ -6,7 +6,8 @@ from . import _handover
 
 PROP = "C12"
 LEAN_TARGETS = ["Eliot.Properties.C12", "Eliot.Properties.C12Buf"] + [t for t in _handover.LEAN_TARGETS if t != "Eliot.Proofs.HandoverGen"]
-SKELETON_TARGETS = {"Generated.handover = Handover.fixedSkel": "Eliot.Proofs.HandoverGen"}
+SKELETON_TARGETS = {"Eliot.ShapesSkel.C12_shapes (E16: Destinations.remove and addGlobalFields as statement lists)": ("Eliot.Properties.ShapesSkel", "Eliot/Audit/ShapesSkel.lean", ["Eliot.ShapesSkel.destinationsRemoveBody_shape", "Eliot.ShapesSkel.addGlobalFieldsBody_shape"]),
+                    "Generated.handover = Handover.fixedSkel": "Eliot.Proofs.HandoverGen"}
 AUDIT = "Eliot/Audit/C12.lean"
 THEOREMS = ["Sys.C12.trim1000_trim", "Sys.C12.bufPhase_basic", "Sys.C12.buffered_until_first_add", "Sys.C12.first_add_delivers_buffer",
             "Sys.C12.later_add_gets_nothing_old", "Sys.C12.removed_gets_nothing", "Sys.C12.after_remove",
